@@ -1,15 +1,19 @@
-"""Proof script for bycycle.cyclepoints.phase.extrema_interpolated_phase (C17), extrema only.
+"""Proof script for bycycle.cyclepoints.phase.extrema_interpolated_phase (C17): extrema only, and extrema with both
+kinds of midpoints (one per flank, inside its closed flank - what find_zerox returns; a midpoint may coincide with an extremum).
 
 The argument, in the order the hooks establish it (every step is its own small obligation; nothing is assumed):
 
-  knots      c(0) < c(1) < ... : the alternating merge of the two extremum arrays (from the precondition), at least two
-             samples apart, inside the signal; globally increasing (induction)
-  anchors    the scattered stores put a finite value exactly on the knots (membership predicate of the store, its witness)
-  selection  between two consecutive knots no sample is selected by the NaN mask, so consecutive knots are consecutive
-             sample points of np.interp (counting function of the mask selection, three inductions)
-  branches   for each of the two interpolated series: value at every knot, constant before the first / after the last knot,
-             strictly monotone on each knot interval in the direction given by the two knot values (assumed np.interp contract)
-  merge      the callee's precondition (finite, rises at the first knot); the callee's F and K are the first and last knot
+  knots      the cyclepoints in temporal order form a slot sequence c(0) <= c(1) <= ... (extrema only: the alternating merge
+             of the two extremum arrays; with midpoints: extremum, midpoint, extremum, ... - a midpoint slot may share its
+             position with a neighbouring extremum slot).  Inside the signal, extrema at least two samples apart, globally
+             non-decreasing (induction)
+  anchors    the scattered stores put a finite value exactly on the slots (membership predicate of each store and its
+             witness); which store wins at a slot (later stores overwrite: midpoints first, extrema last)
+  selection  between two consecutive slots no sample is selected by the NaN mask, so consecutive distinct slots are
+             consecutive sample points of np.interp (counting function of the mask selection, three inductions)
+  branches   for each of the two interpolated series: value at every slot, constant before the first / after the last,
+             strictly monotone on each slot interval in the direction given by the two end values (assumed np.interp contract)
+  merge      the callee's precondition (finite, rises at the first slot); the callee's F and K are the first and last slot
   result     the clauses of the property
 """
 import math
@@ -28,97 +32,166 @@ def _xc(v):
 
 
 class Ctx:
-    """terms shared by the hooks of one path"""
+    """terms shared by the hooks of one path.  mode 'ext': slots are the extrema; mode 'mid': slot 2e is extremum e, slot
+    2e + 1 the midpoint of the flank from extremum e to extremum e + 1."""
 
-    def __init__(self, P, first):
+    def __init__(self, P, first, mode):
         E, env = P.E, P.env
-        self.E = E
-        self.first = first
+        self.E, self.first, self.mode = E, first, mode
         pk, tr = env['peaks'], env['troughs']
         self.A, self.B = (pk, tr) if first == 'peak' else (tr, pk)
         rdi = lambda a, k: to_int(E.rd(a, k))
         self.nA, self.nB = self.A.n, self.B.n
-        self.M = self.nA + self.nB
         self.n = env['sig'].n
-        self.c = lambda q: z3.If(q % 2 == 0, rdi(self.A, q / 2), rdi(self.B, (q - 1) / 2))
-        # is knot q a trough?
-        self.isT = (lambda q: q % 2 == 1) if first == 'peak' else (lambda q: q % 2 == 0)
-        self.valU = lambda q: xops.ite(self.isT(q), _xc(PI), _xc(0.0))
-        self.valV = lambda q: xops.ite(self.isT(q), _xc(-PI), _xc(0.0))
         sc = E.st.ghost.get('scatter', [])
         byid = {}
         for r in sc:
             byid.setdefault(r['idx'].ident, r)
-        if pk.ident not in byid or tr.ident not in byid:
-            raise Unsupported('phase proof: the anchor stores through peaks / troughs were not seen')
-        self.sP, self.sT = byid[pk.ident], byid[tr.ident]
-        # position in the knot sequence of peaks[w] / troughs[w]
-        self.rP = (lambda w: 2 * w) if first == 'peak' else (lambda w: 2 * w + 1)
-        self.rT = (lambda w: 2 * w + 1) if first == 'peak' else (lambda w: 2 * w)
-        self.req = E.st.ghost['facts']['requires']
-        hitP, hitT = self.sP['hit'], self.sT['hit']
-        self.sel = lambda x: z3.Or(hitP(x), hitT(x))
         F = E.st.ghost['facts']
-        self.axP = F['scatter#%d' % (1 + sc.index(self.sP))]
-        self.axT = F['scatter#%d' % (1 + sc.index(self.sT))]
+        self.req = F['requires']
+
+        def store(arr):
+            if arr.ident not in byid:
+                raise Unsupported('phase proof: an anchor store was not seen')
+            r = byid[arr.ident]
+            return dict(hit=r['hit'], wit=r['wit'], ax=F['scatter#%d' % (1 + sc.index(r))], arr=arr)
+        self.sP, self.sT = store(pk), store(tr)
+        zero, pi_, mpi, hp, mhp = _xc(0.0), _xc(PI), _xc(-PI), _xc(PI / 2), _xc(-PI / 2)
+        ite = xops.ite
+        if mode == 'ext':
+            self.M = self.nA + self.nB
+            self.c = lambda q: z3.If(q % 2 == 0, rdi(self.A, q / 2), rdi(self.B, (q - 1) / 2))
+            self.isT = (lambda q: q % 2 == 1) if first == 'peak' else (lambda q: q % 2 == 0)
+            self.valU = lambda q: ite(self.isT(q), pi_, zero)
+            self.valV = lambda q: ite(self.isT(q), mpi, zero)
+            self.sP['slot'] = (lambda w: 2 * w) if first == 'peak' else (lambda w: 2 * w + 1)
+            self.sT['slot'] = (lambda w: 2 * w + 1) if first == 'peak' else (lambda w: 2 * w)
+            self.stores = [self.sP, self.sT]
+            self.per = 2
+        else:
+            ri, de = env['rises'], env['decays']
+            self.sR, self.sD = store(ri), store(de)
+            # midpoints after an A extremum / after a B extremum
+            self.MA, self.MB = (de, ri) if first == 'peak' else (ri, de)
+            self.M = 2 * (self.nA + self.nB) - 1
+            self.c = lambda q: z3.If(q % 4 == 0, rdi(self.A, q / 4), z3.If(q % 4 == 1, rdi(self.MA, (q - 1) / 4),
+                                     z3.If(q % 4 == 2, rdi(self.B, (q - 2) / 4), rdi(self.MB, (q - 3) / 4))))
+            tslot = (lambda q: q % 4 == 2) if first == 'peak' else (lambda q: q % 4 == 0)      # trough slots
+            pslot = (lambda q: q % 4 == 0) if first == 'peak' else (lambda q: q % 4 == 2)
+            dslot = (lambda q: q % 4 == 1) if first == 'peak' else (lambda q: q % 4 == 3)      # decay slots
+            c = self.c
+            self.tslot, self.pslot, self.dslot = tslot, pslot, dslot
+            self.left = lambda q: z3.And(q % 2 == 1, c(q) == c(q - 1))           # midpoint slot on its left extremum
+            self.right = lambda q: z3.And(q % 2 == 1, c(q) == c(q + 1))
+            self.isT = lambda q: z3.Or(tslot(q), z3.And(self.left(q), tslot(q - 1)), z3.And(self.right(q), tslot(q + 1)))
+            self.isP = lambda q: z3.Or(pslot(q), z3.And(self.left(q), pslot(q - 1)), z3.And(self.right(q), pslot(q + 1)))
+            own = lambda q: ite(dslot(q), hp, mhp)
+            self.valU = lambda q: ite(self.isT(q), pi_, ite(self.isP(q), zero, own(q)))
+            self.valV = lambda q: ite(self.isT(q), mpi, ite(self.isP(q), zero, own(q)))
+            sA, sB = (self.sP, self.sT) if first == 'peak' else (self.sT, self.sP)
+            sMA, sMB = (self.sD, self.sR) if first == 'peak' else (self.sR, self.sD)
+            sA['slot'], sMA['slot'], sB['slot'], sMB['slot'] = (lambda w: 4 * w), (lambda w: 4 * w + 1), (lambda w: 4 * w + 2), \
+                (lambda w: 4 * w + 3)
+            self.stores = [self.sT, self.sP, self.sD, self.sR]
+            self.per = 4
+        self.sel = lambda x: z3.Or(*[s['hit'](x) for s in self.stores])
 
     def r_of(self, j):
-        """the knot index of a selected sample j (witness of the store it came from)"""
-        return z3.If(self.sT['hit'](j), self.rT(self.sT['wit'](j)), self.rP(self.sP['wit'](j)))
+        """a slot of a selected sample j (witness of a store that hit it)"""
+        r = self.stores[-1]['slot'](self.stores[-1]['wit'](j))
+        for s in reversed(self.stores[:-1]):
+            r = z3.If(s['hit'](j), s['slot'](s['wit'](j)), r)
+        return r
+
+    def last_same(self, r):
+        """the last slot at the position of slot r (a position is shared by at most three slots)"""
+        if self.mode == 'ext':
+            return r
+        c, M = self.c, self.M
+        return z3.If(z3.And(r + 2 < M, c(r + 2) == c(r)), r + 2, z3.If(z3.And(r + 1 < M, c(r + 1) == c(r)), r + 1, r))
 
 
 def _req_inst(P, K, q):
-    """instances of the three precondition clauses around knot q"""
+    """instances of the quantified precondition clauses around slot q"""
     out = [K.req[0]]
-    for f in K.req[1:3]:
-        for k in (q / 2, (q - 1) / 2, (q + 1) / 2):
+    for f in K.req[1:]:
+        for k in (q / K.per, (q - 1) / K.per, (q + 1) / K.per, q / K.per - 1):
             out.append(P.inst_formula(f, k))
     return out
 
 
 def _req_idx(P, K, w):
-    """instances of the precondition clauses that bound the entries A[w], B[w]"""
-    return [K.req[0]] + [P.inst_formula(f, k) for f in K.req[1:3] for k in (w, w - 1)]
+    """instances of the precondition clauses that bound the entries with index w (and w - 1) of the input arrays"""
+    return [K.req[0]] + [P.inst_formula(f, k) for f in K.req[1:] for k in (w, w - 1)]
 
 
 def knots(P, K):
-    """S0 / S1: the knot sequence and what the stores put there (proved once per path)"""
+    """S0 / S1: the slot sequence and what the stores put there (proved once per path)"""
     E = K.E
     if E.st.ghost.get('eip_knots'):
         return
     q, a, b, j = z3.Int('G_q'), z3.Int('G_a'), z3.Int('G_b'), z3.Int('G_j')
     c, M, n = K.c, K.M, K.n
     P.forall('knot:inr', [q], z3.And(q >= 0, q < M), z3.And(c(q) >= 0, c(q) < n), by=_req_inst(P, K, q))
-    P.forall('knot:adj', [q], z3.And(q >= 0, q < M - 1), c(q) + 2 <= c(q + 1), by=_req_inst(P, K, q))
-    P.induct_q('knot:mono', b, a, M - 1, z3.Implies(b > a, c(a) < c(b)), lambda i: [P.inst('knot:adj', i)], params=(a,), prem=a >= 0)
+    if K.mode == 'ext':
+        P.forall('knot:adj', [q], z3.And(q >= 0, q < M - 1), c(q) + 2 <= c(q + 1), by=_req_inst(P, K, q))
+    else:
+        P.forall('knot:adj', [q], z3.And(q >= 0, q < M - 1), c(q) <= c(q + 1), by=_req_inst(P, K, q))
+        P.forall('knot:gap', [q], z3.And(q >= 0, q % 2 == 0, q + 2 < M), c(q) + 2 <= c(q + 2), by=_req_inst(P, K, q))
+    P.induct_q('knot:mono', b, a, M - 1, c(a) <= c(b), lambda i: [P.inst('knot:adj', i)], params=(a,), prem=a >= 0)
+    if K.mode == 'ext':
+        P.ground('knot:ends-apart', c(0) < c(M - 1), by=[P.inst('knot:mono', 1, M - 1), P.inst('knot:adj', 0), K.req[0]])
+    else:
+        P.ground('knot:ends-apart', c(0) < c(M - 1), by=[P.inst('knot:mono', 2, M - 1), P.inst('knot:gap', 0), K.req[0]])
+    sel = K.sel
+    wit_by = []
+    for s in K.stores:
+        wit_by += [P.inst_formula(s['ax'][1], j)] + _req_idx(P, K, s['wit'](j))
+    # a selected sample is a slot position (witness)
+    P.forall('knot:wit', [j], z3.And(j >= 0, j < n, sel(j)), z3.And(K.r_of(j) >= 0, K.r_of(j) < M, c(K.r_of(j)) == j), by=wit_by)
+    # what the stores do at slot q
+    by = _req_inst(P, K, q) + [P.inst('knot:inr', q)]
+    for s in K.stores:
+        w = s['wit'](c(q))
+        r = s['slot'](w)
+        by += [P.inst_formula(s['ax'][0], q / K.per), P.inst_formula(s['ax'][0], q / K.per - 1), P.inst_formula(s['ax'][1], c(q))]
+        by += _req_idx(P, K, w)
+        if K.mode == 'ext':
+            # (strictness between distinct slots: adjacent slots are two apart)
+            by += [P.inst('knot:mono', r, q - 1), P.inst('knot:mono', q + 1, r), P.inst('knot:adj', q - 1), P.inst('knot:adj', q)]
+        else:
+            by += [P.inst('knot:mono', r, q - 1), P.inst('knot:mono', q + 1, r), P.inst('knot:mono', r, q - 2),
+                   P.inst('knot:mono', q + 2, r), P.inst('knot:gap', q - 2), P.inst('knot:gap', q), P.inst('knot:adj', q - 1),
+                   P.inst('knot:adj', q)]
     hitP, hitT = K.sP['hit'], K.sT['hit']
-    sel, axP, axT = K.sel, K.axP, K.axT
-
-    def stores_at(x, qq):
-        return [P.inst_formula(axP[0], qq / 2), P.inst_formula(axP[0], (qq - 1) / 2),
-                P.inst_formula(axT[0], qq / 2), P.inst_formula(axT[0], (qq - 1) / 2),
-                P.inst_formula(axP[1], x), P.inst_formula(axT[1], x)]
-    # a selected sample is a knot (witness), and a knot is selected; a peak knot is not hit by the trough store
-    P.forall('knot:wit', [j], z3.And(j >= 0, j < n, sel(j)),
-             z3.And(K.r_of(j) >= 0, K.r_of(j) < M, c(K.r_of(j)) == j),
-             by=[P.inst_formula(axP[1], j), P.inst_formula(axT[1], j)] + _req_idx(P, K, K.sP['wit'](j)) + _req_idx(P, K, K.sT['wit'](j)))
-    rt, rp = K.rT(K.sT['wit'](c(q))), K.rP(K.sP['wit'](c(q)))
-    P.forall('knot:hit', [q], z3.And(q >= 0, q < M),
-             z3.And(sel(c(q)), z3.Implies(K.isT(q), z3.And(hitT(c(q)), z3.Not(hitP(c(q))))),
-                    z3.Implies(z3.Not(K.isT(q)), z3.And(hitP(c(q)), z3.Not(hitT(c(q)))))),
-             by=stores_at(c(q), q) + _req_inst(P, K, q) + _req_idx(P, K, K.sT['wit'](c(q))) + _req_idx(P, K, K.sP['wit'](c(q))) +
-             [P.inst('knot:mono', q, rt), P.inst('knot:mono', rt, q), P.inst('knot:mono', q, rp), P.inst('knot:mono', rp, q),
-              P.inst('knot:inr', q)])
+    if K.mode == 'ext':
+        concl = z3.And(sel(c(q)), z3.Implies(K.isT(q), z3.And(hitT(c(q)), z3.Not(hitP(c(q))))),
+                       z3.Implies(z3.Not(K.isT(q)), z3.And(hitP(c(q)), z3.Not(hitT(c(q))))))
+    else:
+        hitD, hitR = K.sD['hit'], K.sR['hit']
+        inside = z3.And(q % 2 == 1, c(q - 1) < c(q), c(q) < c(q + 1))
+        concl = z3.And(sel(c(q)),
+                       z3.Implies(K.tslot(q), hitT(c(q))),
+                       z3.Implies(K.pslot(q), z3.And(hitP(c(q)), z3.Not(hitT(c(q))))),
+                       z3.Implies(inside, z3.And(z3.Not(hitT(c(q))), z3.Not(hitP(c(q))),
+                                                 z3.If(K.dslot(q), z3.And(hitD(c(q)), z3.Not(hitR(c(q)))), z3.And(hitR(c(q)), z3.Not(hitD(c(q))))))))
+    P.forall('knot:hit', [q], z3.And(q >= 0, q < M), concl, by=by)
     E.st.ghost['eip_knots'] = True
 
 
 def sel_at_(P, K, tag, qq):
-    """knot qq is selected by the mask of selection `tag`"""
-    return [P.inst('knot:hit', qq), P.inst('knot:inr', qq), P.inst(tag + ':mask', K.c(qq))]
+    """what is stored at slot qq, and that the mask of selection `tag` selects it (a midpoint slot on an extremum has the
+    facts of that neighbour)"""
+    out = []
+    for x in ((qq,) if K.mode == 'ext' else (qq, qq - 1, qq + 1)):
+        out += [P.inst('knot:hit', x), P.inst('knot:inr', x), P.inst(tag + ':mask', K.c(x))]
+    if K.mode != 'ext':
+        out += [P.inst('knot:adj', qq - 1), P.inst('knot:adj', qq), K.req[0]]
+    return out
 
 
 def selection(P, K, xp):
-    """S2: the counting function of the mask selection along the knots (once per selection map)"""
+    """S2: the counting function of the mask selection along the slots (once per selection map)"""
     E = K.E
     m, g, cnt = xp.meta['cmap']
     inst = None
@@ -135,7 +208,7 @@ def selection(P, K, xp):
     q, j = z3.Int('G_q'), z3.Int('G_j')
     c, M, n = K.c, K.M, K.n
     mk = inst['mask']
-    # the mask of this selection is "hit by one of the two stores" on [0, n)
+    # the mask of this selection is "hit by one of the stores" on [0, n)
     P.forall(tag + ':mask', [j], z3.And(j >= 0, j < n), mk(j) == K.sel(j))
     r = K.r_of(j)
     P.forall(tag + ':none-between', [q, j], z3.And(q >= 0, q < M - 1, c(q) < j, j < c(q + 1)), z3.Not(mk(j)),
@@ -153,22 +226,21 @@ def selection(P, K, xp):
                lambda i: [inst['rec'](i), P.inst(tag + ':none-before', i), P.inst('knot:inr', 0)])
     P.induct_q(tag + ':count-last', j, c(M - 1), n, z3.Implies(j > c(M - 1), cnt(j) == cnt(c(M - 1)) + 1),
                lambda i: [inst['rec'](i), P.inst(tag + ':none-after', i)] + sel_at(M - 1))
-    # consecutive knots are consecutive sample points; the first / last knot is the first / last sample point
-    P.forall(tag + ':points', [q], z3.And(q >= 0, q < M - 1),
+    # consecutive distinct slots are consecutive sample points; the first / last slot is the first / last sample point
+    P.forall(tag + ':points', [q], z3.And(q >= 0, q < M - 1, c(q) < c(q + 1)),
              z3.And(g(cnt(c(q))) == c(q), g(cnt(c(q)) + 1) == c(q + 1), cnt(c(q)) >= 0, cnt(c(q)) + 1 < m),
-             by=[inst['hit'](c(q)), inst['hit'](c(q + 1)), inst['rec'](c(q)), P.inst(tag + ':count-next', q, c(q + 1)),
-                 P.inst('knot:adj', q)] + sel_at(q) + sel_at(q + 1))
+             by=[inst['hit'](c(q)), inst['hit'](c(q + 1)), inst['rec'](c(q)), P.inst(tag + ':count-next', q, c(q + 1))]
+             + sel_at(q) + sel_at(q + 1))
     P.ground(tag + ':ends', z3.And(g(0) == c(0), g(m - 1) == c(M - 1), m >= 2, cnt(c(M - 1)) == m - 1, cnt(c(0)) == 0),
              by=[inst['hit'](c(0)), inst['hit'](c(M - 1)), P.inst(tag + ':count-first', c(0)), P.inst(tag + ':count-last', n),
-                 inst['base'], inst['rec'](c(M - 1)), K.req[0], inst['rec'](c(0)), P.inst(tag + ':count-next', 0, c(1)),
-                 inst['hit'](c(1)), P.inst('knot:adj', 0)]
-             + sel_at(0) + sel_at(1) + sel_at(M - 1))
+                 inst['base'], inst['rec'](c(M - 1)), K.req[0], inst['rec'](c(0)), P.inst('knot:ends-apart')]
+             + sel_at(0) + sel_at(M - 1))
     return tag, inst, (m, g, cnt)
 
 
-def before_interp(first):
+def before_interp(first, mode='ext'):
     def h(P):
-        K = Ctx(P, first)
+        K = Ctx(P, first, mode)
         knots(P, K)
         xp = P.E.st.ghost['interp_args']['xp']
         if 'cmap' not in getattr(xp, 'meta', {}):
@@ -196,9 +268,13 @@ def branches(P, K):
         P.forall(nm + ':fin', [i], z3.And(i >= 0, i < n), z3.And(xops.isfin(W(i)), xops.wf(W(i).t)), by=[sch['fin'](i)])
         P.forall(nm + ':knot', [q], z3.And(q >= 0, q < M), xops.same(W(c(q)), val(q)),
                  by=[sch['knot'](c(q), cnt(c(q))), inst['hit'](c(q)), inst['rec'](c(q))] + sel_at_(P, K, tag, q))
-        P.forall(nm + ':seg', [q, i, i2], z3.And(q >= 0, q < M - 1, c(q) <= i, i < i2, i2 <= c(q + 1)),
-                 z3.And(z3.Implies(K.isT(q + 1), lt(W(i2), W(i)) if nm == 'V' else lt(W(i), W(i2))),
-                        z3.Implies(z3.Not(K.isT(q + 1)), lt(W(i), W(i2)) if nm == 'V' else lt(W(i2), W(i)))),
+        # on a slot interval that ends on a trough the -pi branch falls and the +pi branch rises; on every other interval the
+        # -pi branch rises
+        if nm == 'V':
+            concl = z3.And(z3.Implies(K.isT(q + 1), lt(W(i2), W(i))), z3.Implies(z3.Not(K.isT(q + 1)), lt(W(i), W(i2))))
+        else:
+            concl = z3.Implies(K.isT(q + 1), lt(W(i), W(i2)))
+        P.forall(nm + ':seg', [q, i, i2], z3.And(q >= 0, q < M - 1, c(q) <= i, i < i2, i2 <= c(q + 1)), concl,
                  by=[sch['mono'](i, i2, cnt(c(q))), P.inst(tag + ':points', q), inst['hit'](c(q)), inst['hit'](c(q + 1)),
                      P.inst('knot:inr', q), P.inst('knot:inr', q + 1)] + sel_at_(P, K, tag, q) + sel_at_(P, K, tag, q + 1))
         P.forall(nm + ':left', [i], z3.And(i >= 0, i <= c(0)), xops.same(W(i), val(0)),
@@ -216,26 +292,42 @@ def _callee_env(P, K, br, extra=None):
     return env
 
 
-def before_merge(first):
+def _first_slots(K):
+    return (0,) if K.mode == 'ext' else (0, 1)
+
+
+def _last_slots(K):
+    return (K.M - 2,) if K.mode == 'ext' else (K.M - 2, K.M - 3)
+
+
+def _basics(P, K):
+    M = K.M
+    out = [K.req[0], P.inst('knot:ends-apart')]
+    for s in (0, 1, 2, M - 1, M - 2, M - 3):
+        out += [P.inst('knot:inr', s), P.inst('knot:adj', s)]
+        if K.mode != 'ext':
+            out.append(P.inst('knot:gap', s))
+    return out
+
+
+def before_merge(first, mode='ext'):
     """S4: the callee's precondition"""
     def h(P):
         E = P.E
         if len(E.st.ghost.get('interp', [])) != 2 or E.st.ghost.get('eip_merge'):
             return
-        K = Ctx(P, first)
+        K = Ctx(P, first, mode)
         br = branches(P, K)
         c, M, n = K.c, K.M, K.n
         callee = E.contracts['bycycle.cyclepoints.phase._merge_phases']
         from .phase import STEP_UP
-        U, V = br['U'][1], br['V'][1]
         c0 = c(0)
-        near = [P.inst(w + ':seg', 0, a, b) for w in 'UV' for a, b in ((c0, c0 + 1), (c0 + 1, c0 + 2))] + \
-               [P.inst(w + ':fin', x) for w in 'UV' for x in (c0, c0 + 1, c0 + 2)] + \
-               [P.inst('knot:adj', 0), P.inst('knot:inr', 0), P.inst('knot:inr', 1), K.req[0]]
+        near = [P.inst(w + ':seg', s, a, b) for w in 'UV' for s in _first_slots(K) for a, b in ((c0, c0 + 1), (c0 + 1, c0 + 2))] + \
+               [P.inst(w + ':knot', s) for w in 'UV' for s in (0, 1, 2)] + \
+               [P.inst(w + ':fin', x) for w in 'UV' for x in (c0, c0 + 1, c0 + 2)] + _basics(P, K)
         rise0 = E.spec_bool(STEP_UP, _callee_env(P, K, br, {'j': Z(c0, INT)}))
         P.ground('merge:rises-at-first-knot', rise0, by=near)
-        fin = P.prove_clause('merge:finite', callee['requires'][1], _callee_env(P, K, br),
-                             lambda x: [P.inst('U:fin', x), P.inst('V:fin', x)])
+        P.prove_clause('merge:finite', callee['requires'][1], _callee_env(P, K, br), lambda x: [P.inst('U:fin', x), P.inst('V:fin', x)])
         P.ground('merge:first-knot-range', z3.And(c0 >= 0, c0 < n - 1, n >= 2), by=near)
         P.have('merge:rises-somewhere', E.spec_bool(callee['requires'][2], _callee_env(P, K, br)),
                using=['merge:rises-at-first-knot', 'merge:first-knot-range'])
@@ -259,11 +351,25 @@ ENSURES = [
 ENSURES_USING = {2: ['res:peaks'], 3: ['res:troughs'], 4: ['res:span'], 5: ['res:outside'], 6: ['res:monotone']}
 
 
-def before_return(first):
-    """S5: the callee's F and K are the first and the last knot; then the clauses of the property"""
+def midpoint_clauses(first):
+    """-pi/2 at a rise midpoint and +pi/2 at a decay midpoint that does not coincide with one of the two extrema of its flank"""
+    if first == 'peak':
+        rl, rr, dl, dr = "troughs[k]", "peaks[k + 1]", "peaks[k]", "troughs[k]"
+    else:
+        rl, rr, dl, dr = "troughs[k]", "peaks[k]", "peaks[k]", "troughs[k + 1]"
+    return ["forall(k, 0 <= k < len(rises), rises[k] == %s or rises[k] == %s or result[rises[k]] == -np.pi / 2)" % (rl, rr),
+            "forall(k, 0 <= k < len(decays), decays[k] == %s or decays[k] == %s or result[decays[k]] == np.pi / 2)" % (dl, dr)]
+
+
+ENSURES_USING_MID = dict(ENSURES_USING)
+ENSURES_USING_MID.update({7: ['res:rises'], 8: ['res:decays']})
+
+
+def before_return(first, mode='ext'):
+    """S5: the callee's F and K are the first and the last slot; then the clauses of the property"""
     def h(P):
         E, env = P.E, P.env
-        K = Ctx(P, first)
+        K = Ctx(P, first, mode)
         br = branches(P, K)
         c, M, n = K.c, K.M, K.n
         from .phase import STEP_AT, m as m_text
@@ -272,53 +378,59 @@ def before_return(first):
         F, Kl = loc['first_empirical_idx'].t, loc['last_empirical_idx'].t
         End = n - Kl
         res = env['__return__']
-        R = lambda x: E.rd(res, x)
         cenv = lambda jt: _callee_env(P, K, br, {'j': Z(jt, INT), 'i': Z(jt, INT)})
         up = lambda jt: E.spec_bool(STEP_AT.format(j='j') + " > 0", cenv(jt))
         down = lambda jt: E.spec_bool(STEP_AT.format(j='j') + " < 0", cenv(jt))
-        mval = lambda it: E.spec_eval(m_text('i'), cenv(it))
-        j, i, k, q = z3.Int('G_j'), z3.Int('G_i'), z3.Int('G_k'), z3.Int('G_q')
+        j, i = z3.Int('G_j'), z3.Int('G_i')
         c0, cl = c(0), c(M - 1)
         fins = lambda *xs: [P.inst(w + ':fin', x) for w in 'UV' for x in xs]
-        basics = [P.inst('knot:inr', 0), P.inst('knot:inr', M - 1), P.inst('knot:adj', 0), P.inst('knot:adj', M - 2),
-                  P.inst('knot:inr', 1), P.inst('knot:inr', M - 2), K.req[0], P.inst('knot:mono', 0, M - 1)]
-        # ---- F is the first knot
+        basics = _basics(P, K)
+        facts = E.st.ghost['facts']
+        # ---- F is the first slot
         P.forall('merge:flat-before', [j], z3.And(j >= 0, j < c0), z3.Not(up(j)),
                  by=[P.inst('V:left', j), P.inst('V:left', j + 1), P.inst('V:left', j + 2), P.inst('U:left', j + 1),
-                     P.inst('V:seg', 0, c0, c0 + 1), P.inst('U:knot', 0), P.inst('V:knot', 0)] + fins(j, j + 1, j + 2) + basics)
-        rise0 = E.st.ghost['facts']['merge:rises-at-first-knot']
-        P.ground('merge:F', F == c0, by=[rise0, cf[1], cf[7], P.inst_formula(cf[2], c0), P.inst('merge:flat-before', F)] + basics)
-        # ---- the last unmasked sample is the last knot
+                     P.inst('U:knot', 0), P.inst('V:knot', 0)] + [P.inst('V:seg', s, c0, c0 + 1) for s in _first_slots(K)]
+                 + [P.inst(w + ':knot', s) for w in 'UV' for s in (1, 2)] + fins(j, j + 1, j + 2) + basics)
+        P.ground('merge:F', F == c0, by=[facts['merge:rises-at-first-knot'], cf[1], cf[7], P.inst_formula(cf[2], c0),
+                                        P.inst('merge:flat-before', F)] + basics)
+        # ---- the last unmasked sample is the last slot
+        last_by = []
+        for s in _last_slots(K):
+            last_by += [P.inst('V:seg', s, cl - 1, cl), P.inst('U:seg', s, cl - 1, cl), P.inst('U:seg', s, c(s), cl - 1)]
+        last_by += [P.inst(w + ':knot', s) for w in 'UV' for s in (M - 1, M - 2, M - 3)]
         P.ground('merge:last-step', z3.Or(up(cl - 1), down(cl - 1)),
-                 by=[P.inst('V:seg', M - 2, cl - 1, cl), P.inst('U:seg', M - 2, cl - 1, cl), P.inst('U:seg', M - 2, c(M - 2), cl - 1),
-                     P.inst('U:knot', M - 2), P.inst('U:knot', M - 1), P.inst('V:knot', M - 1), P.inst('V:knot', M - 2),
-                     P.inst('V:right', cl), P.inst('V:right', cl + 1)] + fins(cl - 1, cl, cl + 1) + basics)
+                 by=last_by + [P.inst('V:right', cl), P.inst('V:right', cl + 1)] + fins(cl - 1, cl, cl + 1) + basics)
         P.forall('merge:flat-after', [j], z3.And(j >= cl, j < n - 1), z3.Not(z3.Or(up(j), down(j))),
                  by=[P.inst('V:right', j), P.inst('V:right', j + 1), P.inst('V:right', j + 2)] + fins(j, j + 1, j + 2) + basics)
         P.ground('merge:End', End == cl + 1,
                  by=[cf[4], cf[8], P.inst_formula(cf[9], cl - 1), P.inst('merge:flat-after', End - 2),
-                     E.st.ghost['facts']['merge:last-step'], E.st.ghost['facts']['merge:F']] + basics)
-        ends = [E.st.ghost['facts']['merge:F'], E.st.ghost['facts']['merge:End'], cf[0]] + basics
+                     facts['merge:last-step'], facts['merge:F']] + basics)
+        ends = [facts['merge:F'], facts['merge:End'], cf[0]] + basics
         env2 = dict(E.entry_env)
         env2['result'] = res
         pk, tr = env2['peaks'], env2['troughs']
         rdi = lambda a, x: to_int(E.rd(a, x))
-        nP, nT = pk.n, tr.n
         # first / last cyclepoint as written in the clauses
         firstlast = [P.inst_formula(f, x) for f in K.req[1:3] for x in (0, K.nB - 1, K.nB - 2)] + [K.req[0]]
-        fl_env = dict(env2)
-        P.ground('res:first-last', z3.And(E.spec_bool("%s == peaks[0] or %s == troughs[0]" % (FIRST, FIRST), fl_env),
-                                          to_int(lift(E.spec_eval(FIRST, fl_env))) == c0,
-                                          to_int(lift(E.spec_eval(LAST, fl_env))) == cl), by=firstlast + basics)
-        FL = [E.st.ghost['facts']['res:first-last']]
+        P.ground('res:first-last', z3.And(to_int(lift(E.spec_eval(FIRST, env2))) == c0, to_int(lift(E.spec_eval(LAST, env2))) == cl),
+                 by=firstlast + basics)
+        FL = [facts['res:first-last']]
+
         # ---- anchors
-        for nm, arr, rr, clause in (('res:peaks', pk, K.rP, ENSURES[1]), ('res:troughs', tr, K.rT, ENSURES[2])):
-            def by(kk, arr=arr, rr=rr):
-                x, r = rdi(arr, kk), rr(kk)
+        def anchor(nm, store, clause, guard=False):
+            def by(kk):
+                x, r = rdi(store['arr'], kk), store['slot'](kk)
                 return [P.inst_formula(cf[6], x), P.inst('U:knot', r), P.inst('V:knot', r), P.inst('knot:mono', 0, r),
-                        P.inst('knot:mono', r, M - 1), P.inst('knot:inr', r)] + fins(x, x + 1) + ends + _req_idx(P, K, kk)
+                        P.inst('knot:mono', r, M - 1), P.inst('knot:inr', r), P.inst('knot:hit', r), P.inst('knot:adj', r - 1),
+                        P.inst('knot:adj', r)] + fins(x, x + 1) + ends + _req_idx(P, K, kk)
             P.prove_clause(nm, clause, env2, by)
-        # ---- range of the two branch series (independent of the knot structure: enclosing sample points of np.interp)
+        anchor('res:peaks', K.sP, ENSURES[1])
+        anchor('res:troughs', K.sT, ENSURES[2])
+        if K.mode != 'ext':
+            mc = midpoint_clauses(first)
+            anchor('res:rises', K.sR, mc[0])
+            anchor('res:decays', K.sD, mc[1])
+        # ---- range of the two branch series (independent of the slot structure: enclosing sample points of np.interp)
         recs = E.st.ghost['interp']
         pi_, mpi = _xc(PI), _xc(-PI)
         for nm, rec in (('U', recs[0]), ('V', recs[1])):
@@ -334,25 +446,24 @@ def before_return(first):
                          P.inst(tag + ':mask', g(m - 1))] + fins(i, g(b), g(b + 1)))
         P.prove_clause('res:span', ENSURES[3], env2,
                        lambda x: [P.inst_formula(cf[6], x), P.inst('U:range', x), P.inst('V:range', x)] + fins(x, x + 1) + ends + FL)
-        P.prove_clause('res:outside', ENSURES[4], env2,
-                       lambda x: [P.inst_formula(cf[3], x), P.inst_formula(cf[5], x)] + ends + FL)
-        # ---- monotone: the knot interval that contains i and i + 1
+        P.prove_clause('res:outside', ENSURES[4], env2, lambda x: [P.inst_formula(cf[3], x), P.inst_formula(cf[5], x)] + ends + FL)
+        # ---- monotone: the slot interval that contains i and i + 1
         tagV, instV, (mV, gV, cntV) = selection(P, K, recs[1]['xp'])
         b = recs[1]['seg'](i)
-        r = K.r_of(gV(b))
-        qi = z3.If(i < c(r + 1), r, r + 1)
-        P.forall('knot:enclosing', [i], z3.And(i >= c0, i < cl),
-                 z3.And(qi >= 0, qi < M - 1, c(qi) <= i, i < c(qi + 1)),
-                 by=[recs[1]['sch']['seg'](i), instV['sel'](b), instV['sel'](b + 1), P.inst(tagV + ':mask', gV(b)),
-                     P.inst('knot:wit', gV(b)), P.inst(tagV + ':points', r), P.inst(tagV + ':ends'), P.inst('knot:adj', r + 1),
-                     P.inst('knot:inr', r), P.inst('knot:inr', r + 1)] + basics)
+        r0 = K.r_of(gV(b))
+        qi = K.last_same(r0)
+        enc_by = [recs[1]['sch']['seg'](i), instV['sel'](b), instV['sel'](b + 1), P.inst(tagV + ':mask', gV(b)),
+                  P.inst('knot:wit', gV(b)), P.inst(tagV + ':points', qi), P.inst(tagV + ':ends')] + basics
+        for s in (r0, r0 + 1, r0 + 2, r0 + 3):
+            enc_by += [P.inst('knot:adj', s), P.inst('knot:inr', s)] + ([P.inst('knot:gap', s)] if K.mode != 'ext' else [])
+        P.forall('knot:enclosing', [i], z3.And(i >= c0, i < cl), z3.And(qi >= 0, qi < M - 1, c(qi) <= i, i < c(qi + 1)), by=enc_by)
 
         def by_mono(x):
             qq = z3.substitute(qi, (i, x))
             return ([P.inst('knot:enclosing', x), P.inst_formula(cf[6], x), P.inst_formula(cf[6], x + 1)] +
                     [P.inst(w + ':seg', qq, a, b_) for w in 'UV' for a, b_ in ((x, x + 1), (x + 1, x + 2))] +
-                    [P.inst('V:seg', qq + 1, x + 1, x + 2), P.inst('U:knot', qq + 1), P.inst('V:knot', qq + 1),
-                     P.inst('V:right', x + 1), P.inst('V:right', x + 2), P.inst('knot:adj', qq), P.inst('knot:adj', qq + 1),
-                     P.inst('knot:inr', qq + 1), P.inst('knot:inr', qq + 2)] + fins(x, x + 1, x + 2) + ends + FL)
+                    [P.inst('U:knot', qq + 1), P.inst('V:knot', qq + 1), P.inst('knot:hit', qq + 1), P.inst('knot:hit', qq + 2),
+                     P.inst('knot:adj', qq), P.inst('knot:adj', qq + 1), P.inst('knot:inr', qq + 1), P.inst('knot:inr', qq + 2)]
+                    + fins(x, x + 1, x + 2) + ends + FL)
         P.prove_clause('res:monotone', ENSURES[5], env2, by_mono)
     return h
